@@ -429,7 +429,8 @@ func validateOptTree(src map[string]string) (rep Report) {
 				}
 			}
 		}
-		tr := drive.RunTree(mods, src, "main", drive.TreeOpts{})
+		// (bounded by interpreter steps, not by time: a program too long for the interpreter is skipped)
+		tr := drive.RunTree(mods, src, "main", drive.TreeOpts{StepBudget: 3_000_000})
 		where := ""
 		if optimise {
 			where = "same-tree"
